@@ -72,6 +72,12 @@ func (r Registry) LookupInterface(name string) (*types.Interface, *types.TypePar
 		return nil, nil, fmt.Errorf("%s (%s) is not an interface", name, obj.Type())
 	}
 
+	// A variable, constant or function whose type happens to be an interface
+	// is not an interface declaration.
+	if _, ok := obj.(*types.TypeName); !ok {
+		return nil, nil, fmt.Errorf("%s (%s) is not an interface", name, obj)
+	}
+
 	var tparams *types.TypeParamList
 	named, ok := obj.Type().(*types.Named)
 	if ok {
